@@ -1058,6 +1058,11 @@ pub fn run_c05(tier: &str, seed: u64) -> Report {
                 let fill: String = std::iter::repeat('A').take(n).collect();
                 edits.push((format!("{}.{}{}", base, segs[3], fill), f.clone(), "footer-segment-long-extension"));
             }
+            // further segments behind the footer segment (5 or more in all): the fourth is then not "the" footer segment
+            for tail in [".", ".AA", "...", ".."] {
+                edits.push((format!("{}{}", token, tail), f.clone(), "footer-segment-followed-by-more-segments"));
+            }
+            edits.push((format!("{}.{}", token, segs[3]), f.clone(), "footer-segment-followed-by-more-segments"));
             for (tok, sup, class) in edits {
                 let c = C05Case { p, layer, key: key.clone(), built_footer: f.clone(), supplied_footer: sup, ia: ia.map(|s| s.to_string()), token: tok, class: class.into() };
                 c05_eval(&c, r);
@@ -1071,6 +1076,11 @@ pub fn run_c05(tier: &str, seed: u64) -> Report {
             // that was never authenticated and that the caller does not expect
             for (sup, class) in [(None, "footer-segment-added+none-expected"), (Some(String::new()), "footer-segment-added+empty-expected")] {
                 let c = C05Case { p, layer, key: key.clone(), built_footer: f.clone(), supplied_footer: sup, ia: ia.map(|s| s.to_string()), token: tok.clone(), class: class.into() };
+                c05_eval(&c, r);
+            }
+            // a footer-less token followed by an EMPTY fourth segment and more: five segments, not a token
+            for tail in ["..x", "..", ".x.y", "..AAAA.AAAA"] {
+                let c = C05Case { p, layer, key: key.clone(), built_footer: f.clone(), supplied_footer: None, ia: ia.map(|s| s.to_string()), token: format!("{}{}", token.trim_end_matches('.'), tail), class: "footer-less-token-followed-by-more-segments".into() };
                 c05_eval(&c, r);
             }
             let tok2 = format!("{}.{}", token.trim_end_matches('.'), util::b64(b"{\"kid\":\"attacker\"}"));
@@ -1191,7 +1201,7 @@ pub fn replay_c05(case: &Value) -> Report {
     r
 }
 
-pub const RULE_C05: &str = "8 protocols x 3 layers x footer catalogue (none, empty, 40 strings + 20 (thorough 300) seeded random ones; incl. prefix/extension pairs, case and whitespace variants, NUL suffix, NFC/NFD, strings whose base64 differs in the last character, strings that are themselves base64 or contain dots): a token is built with each footer F through that layer's builder and presented to that layer's parser with every expected footer F' of the catalogue; oracle: accept iff F' == F with none == empty (string equality in the harness). Plus a re-cut across a length prefix (the first d bytes of the footer, preceded by the footer's length field, are moved behind the message / ciphertext and the rest is presented as footer, d in {128, 256, 65536}: collides iff the PAE length encoding is not injective). Plus a footer LENGTH sweep (every length 0..=130, 255..257, 65535..65537: built, opened with the same footer, its one-byte-shorter prefix and its one-byte extension). Plus parser sessions (the expected footer is changed between parses of one parser object) and 160 (thorough 2000) NESTED pairs of them (a second parser object is created, used and dropped in the middle of another one's session on the same thread; both must answer as alone). Plus the footer segment of every produced token compared with the harness's own base64url encoder, and edits of the segment (removed, emptied, replaced with and without matching expectation, extended, truncated, raw text, added to a footer-less token with a matching, an empty and NO expectation). distinct_nontrivial = distinct (protocol, layer, built class, supplied class) for accepted pairs and (protocol, layer, case class, rejection variant) for rejected ones";
+pub const RULE_C05: &str = "8 protocols x 3 layers x footer catalogue (none, empty, 40 strings + 20 (thorough 300) seeded random ones; incl. prefix/extension pairs, case and whitespace variants, NUL suffix, NFC/NFD, strings whose base64 differs in the last character, strings that are themselves base64 or contain dots): a token is built with each footer F through that layer's builder and presented to that layer's parser with every expected footer F' of the catalogue; oracle: accept iff F' == F with none == empty (string equality in the harness). Plus a re-cut across a length prefix (the first d bytes of the footer, preceded by the footer's length field, are moved behind the message / ciphertext and the rest is presented as footer, d in {128, 256, 65536}: collides iff the PAE length encoding is not injective). Plus a footer LENGTH sweep (every length 0..=130, 255..257, 65535..65537: built, opened with the same footer, its one-byte-shorter prefix and its one-byte extension). Plus parser sessions (the expected footer is changed between parses of one parser object) and 160 (thorough 2000) NESTED pairs of them (a second parser object is created, used and dropped in the middle of another one's session on the same thread; both must answer as alone). Plus the footer segment of every produced token compared with the harness's own base64url encoder, and edits of the segment (removed, emptied, replaced with and without matching expectation, extended, truncated, raw text, followed by further segments, added to a footer-less token with a matching, an empty and NO expectation). distinct_nontrivial = distinct (protocol, layer, built class, supplied class) for accepted pairs and (protocol, layer, case class, rejection variant) for rejected ones";
 
 // ==========================================================================================
 // C06
